@@ -623,7 +623,7 @@ fn cases(tier: Tier) -> Vec<Case> {
     }
     // larger identifier numbers and repeated patterns (model only)
     let fa = framed_actions();
-    for prefix in [0usize, 4, 5, 8, 14, 15, 40, 130] {
+    for prefix in (0usize..=40).chain([64, 127, 128, 130]) {
         for guarded in [false, true] {
             if prefix == 0 && !guarded {
                 continue;
